@@ -149,6 +149,25 @@ def map_events(args) -> list:
         tl = t3i(t)
         tns = proj.ns_from_t3(tl)
         gap = (bb.wall_offset.seconds - a.wall_offset.seconds) * 10**9
+        # start of day for the local dates around the transition, in ISO and other calendars
+        for base_off in (a.wall_offset.seconds, bb.wall_offset.seconds):
+            d0 = (tns + base_off * 10**9) // NPD
+            for dd in (d0 - 1, d0, d0 + 1):
+                for cal in [iso] + ([rnd.choice(cals)] if rnd.random() < 0.5 else []):
+                    try:
+                        date = LocalDate._ctor(days_since_epoch=dd, calendar=cal)
+                    except Exception:  # noqa: BLE001
+                        continue
+                    ev = {"op": "sod", "win": wevs, "day": dd, "cal": cal.id, "res_cal": cal.id, "res_day": dd}
+                    try:
+                        zdt = z.at_start_of_day(date)
+                        ev["res"] = t3i(zdt.to_instant())
+                        ev["res_cal"] = zdt.calendar.id
+                        ev["res_day"] = zdt.date._days_since_epoch
+                    except Exception as e:  # noqa: BLE001
+                        ev["res"] = SKIPPED if type(e).__name__ == "SkippedTimeError" else [0, 0, -9]
+                        ev["exc"] = type(e).__name__
+                    evs.append(ev)
         deltas = {-10**9, -1, 0, 1, 10**9, gap // 2, -gap // 2, gap, -gap, gap - 1, -gap - 1, NPD, -NPD, rnd.randint(-NPD, NPD)}
         for base_off in (a.wall_offset.seconds, bb.wall_offset.seconds):
             for dlt in deltas:
